@@ -593,6 +593,7 @@ def stats_stage(run, n_cases, n_vec=0):
         cases.append((beam, o))
         terms.append(stats_term(beam, o))
     # vectorised beams: survival probabilities with a batch dimension (constructed so, or produced by a vectorised aperture)
+    vec_bad = []
     for _ in range(n_vec):
         case = gen_vec_stats_case(run.rng)
         prob, entries, observed = vec_stats_oracle(case)
@@ -601,15 +602,16 @@ def stats_stage(run, n_cases, n_vec=0):
         run.count("stats_vectorised_" + case["mode"])
         if prob:
             case = shrink_vec_case(case)
-            oracle_bad.append({"kind": "stats_vectorised", "case": case, "problems": vec_stats_oracle(case)[0] or prob,
-                               "relation": "every statistic of entry i of a beam with vectorised survival == that statistic of the un-vectorised beam of "
-                                           "entry i == (0/1 survival) that of the beam with the lost particles deleted"})
+            vec_bad.append({"kind": "stats_vectorised", "case": case, "problems": vec_stats_oracle(case)[0] or prob,
+                            "relation": "every statistic of entry i of a beam with vectorised survival == that statistic of the un-vectorised beam of "
+                                        "entry i == (0/1 survival) that of the beam with the lost particles deleted"})
             continue
         for e, o in zip(entries, observed):
             if all(math.isfinite(v) for v in o.values()):
                 run.count("stats_vectorised_entries")
                 cases.append((dict(e, vectorised_entry_of=case["mode"]), o))
                 terms.append(stats_term(e, o))
+    oracle_bad.extend(sorted(vec_bad, key=lambda it: len(json.dumps(it["case"]))))      # the smallest failing case first
     if cases:
         run.sample({"stats_beam": cases[0][0], "observed": cases[0][1]})
     failing = common.run_shards(PID, "stats", PREAMBLE, terms, "st_check", shard=50, jobs=8)
